@@ -11,7 +11,7 @@
 From Coq Require Import List NArith Bool Lia ZifyBool ZifyN Arith.
 From UP Require Import Base.Chars Base.Regex Model.Uri Model.Common Model.Normalize Model.Recompose Model.Ip4 Model.Parse
   Spec.NormalWf Spec.Split Spec.Unparse Proofs.NormalizeProofs Proofs.NormalizeLink Proofs.DotSegments
-  Proofs.ParseWfStep Proofs.ParseWf Proofs.ParseSplit.
+  Proofs.ParseData Proofs.ParseWfStep Proofs.ParseWf Proofs.ParseSplit.
 From UP Require Spec.Normal Spec.Resolve Proofs.ResolveProofs Proofs.Ip4Proofs.
 Import ListNotations.
 Local Open Scope N_scope.
@@ -388,3 +388,226 @@ Qed.
 
 Theorem parsed_meets_hyps s u : parse s = POk u -> text_hyps u = true /\ ip4_rendered u = true.
 Proof. intros H. exact (parsed_wf_meets_hyps u (parse_wf s u H)). Qed.
+
+(* ================================================================ 4. from the object to the text *)
+(* Spec.Resolve.five_of_text (RFC 3986 appendix B) in the stages of Proofs/ParseSplit.v; the only
+   difference with Spec.Split.split_spec is the test for a scheme (here: any non-empty prefix in front of
+   the first ":" that comes before any "/", "?", "#") *)
+Lemma rspan stops s : Resolve.span_until stops s = span_until stops s.
+Proof.
+  induction s as [|c r IH]; [reflexivity|]. cbn [Resolve.span_until span_until]. rewrite IH. reflexivity.
+Qed.
+
+Definition ft_scheme (s : text) : option text * text :=
+  let (pfx, rest0) := span_until [58; 47; 63; 35] s in
+  match pfx, strip_char 58 rest0 with
+  | _ :: _, Some r => (Some pfx, r)
+  | _, _ => (None, s)
+  end.
+
+Lemma ft_auth rest1 :
+  (if Resolve.starts_with [47; 47] rest1
+   then let (a, r') := span_until [47; 63; 35] (skipn 2 rest1) in (Some a, r')
+   else (None, rest1)) = sp_auth rest1.
+Proof.
+  unfold sp_auth. destruct rest1 as [|a [|b r]]; cbn [Resolve.starts_with strip_char skipn].
+  - reflexivity.
+  - rewrite (N.eqb_sym 47 a). destruct (a =? 47); reflexivity.
+  - rewrite (N.eqb_sym 47 a), (N.eqb_sym 47 b). destruct (a =? 47); [|reflexivity]. cbn [andb strip_char].
+    destruct (b =? 47); reflexivity.
+Qed.
+
+Lemma five_of_text_stages s :
+  Resolve.five_of_text s =
+  let (sch, rest1) := ft_scheme s in
+  let (auth, rest2) := sp_auth rest1 in
+  let (path, rest3) := span_until [63; 35] rest2 in
+  let (qry, rest4) := sp_query rest3 in
+  Resolve.mkFive sch auth path qry (strip_char 35 rest4).
+Proof.
+  unfold Resolve.five_of_text, ft_scheme, sp_query. rewrite !rspan.
+  destruct (span_until [58; 47; 63; 35] s) as [pfx rest0].
+  assert (forall rest1 sch,
+    (let '(auth, rest2) :=
+       if Resolve.starts_with [47; 47] rest1
+       then let (a, r') := Resolve.span_until [47; 63; 35] (skipn 2 rest1) in (Some a, r')
+       else (None, rest1) in
+     let (path, rest3) := Resolve.span_until [63; 35] rest2 in
+     let '(qry, rest4) :=
+       match strip_char 63 rest3 with
+       | Some r => let (q, r') := Resolve.span_until [35] r in (Some q, r')
+       | None => (None, rest3)
+       end in
+     Resolve.mkFive sch auth path qry (strip_char 35 rest4))
+    = (let (auth, rest2) := sp_auth rest1 in
+       let (path, rest3) := span_until [63; 35] rest2 in
+       let (qry, rest4) :=
+         match strip_char 63 rest3 with
+         | Some r => let (q, r') := span_until [35] r in (Some q, r')
+         | None => (None, rest3)
+         end in
+       Resolve.mkFive sch auth path qry (strip_char 35 rest4))) as Hrest.
+  { intros rest1 sch. rewrite <- ft_auth. rewrite !rspan.
+    destruct (Resolve.starts_with [47; 47] rest1).
+    - destruct (span_until [47; 63; 35] (skipn 2 rest1)) as [a r']. rewrite !rspan.
+      destruct (span_until [63; 35] r') as [path rest3]. destruct (strip_char 63 rest3) as [r|]; [|reflexivity].
+      rewrite rspan. reflexivity.
+    - rewrite !rspan. destruct (span_until [63; 35] rest1) as [path rest3].
+      destruct (strip_char 63 rest3) as [r|]; [|reflexivity]. rewrite rspan. reflexivity. }
+  destruct pfx as [|c pr]; [apply Hrest|]. destruct (strip_char 58 rest0) as [r|]; apply Hrest.
+Qed.
+
+Lemma ft_scheme_some sc R : scheme_ok sc -> ft_scheme (sc ++ [58] ++ R) = (Some sc, R).
+Proof.
+  intros H. unfold ft_scheme. rewrite span_app.
+  - cbn [app]. rewrite strip_char_cons. destruct sc as [|c r]; [destruct H|reflexivity].
+  - destruct (scheme_ok_class _ H) as [_ Hc]. revert Hc. apply class_avoid. vm_compute. reflexivity.
+  - cbn. reflexivity.
+Qed.
+
+Lemma ft_scheme_none a r : avoid [58; 47; 63; 35] a -> stops_at [47; 63; 35] r -> ft_scheme (a ++ r) = (None, a ++ r).
+Proof.
+  intros Ha Hr. unfold ft_scheme. rewrite span_app.
+  - rewrite (strip_char_stops 58 [47; 63; 35] r eq_refl Hr). destruct a; reflexivity.
+  - exact Ha.
+  - destruct r as [|x r]; [exact I|]. cbn [stops_at] in *. cbn [mem] in *. rewrite Hr. apply orb_true_r.
+Qed.
+
+Lemma ft_scheme_opt sc R : opt_ok scheme_ok sc ->
+  (sc = None -> exists a r, R = a ++ r /\ avoid [58; 47; 63; 35] a /\ stops_at [47; 63; 35] r) ->
+  ft_scheme (opt_post sc [58] ++ R) = (sc, R).
+Proof.
+  intros Hs Hn. destruct sc as [s|]; cbn [opt_post opt_ok] in *.
+  - rewrite <- app_assoc. apply ft_scheme_some. exact Hs.
+  - cbn [app]. destruct (Hn eq_refl) as (a & r & -> & Ha & Hr). apply ft_scheme_none; assumption.
+Qed.
+
+Lemma join_text_unparse ps : join_text ps = join_slash ps.
+Proof.
+  unfold join_text. induction ps as [|s [|s2 r] IH]; [reflexivity|cbn; apply app_nil_r|].
+  change (path_pieces (s :: s2 :: r)) with (s :: [47] :: path_pieces (s2 :: r)).
+  change (join_slash (s :: s2 :: r)) with (s ++ [47] ++ join_slash (s2 :: r)).
+  cbn [concat]. rewrite IH. reflexivity.
+Qed.
+
+(* the five components of the text written back from a well-formed object are the object's *)
+Theorem five_unparse u : parsed_wf parse_ip4 ip6_bytes u -> Resolve.five_of_text (unparse u) = RP.five_of_uri u.
+Proof.
+  intros Hwf. pose proof (wf_is_host_set u (proj1 (proj2 Hwf))) as Hhs. revert Hwf Hhs.
+  destruct u as [sc ui ht i4 i6 fu po ps qu fr ab ow].
+  unfold parsed_wf, chars_ok, flags_ok, path_ok, auth_ok, unparse, scheme_part, authority_part,
+    path_part, host_part, is_lit, RP.five_of_uri, RP.auth_text, RP.host_written, RP.path_text, path_text_of.
+  cbn [scheme userInfo hostText ip4 ip6 ipFuture portText pathSegs query fragment absolutePath owner].
+  intros ((Hsc & Hui & Hh & Hpo & Hps & Hqu & Hfr) & (How & Hfl) & Hpa & Hau) Hhs.
+  rewrite Hhs. cbn [hostText]. clear Hhs.
+  subst ow. rewrite five_of_text_stages. rewrite join_text_unparse.
+  pose proof (segs_noslash _ Hps) as Hns.
+  pose proof (segs_avoid [63; 35] _ eq_refl Hps) as Hps2.
+  assert (opt_ok (avoid [35]) qu) as Hq35.
+  { revert Hqu. apply opt_ok_impl. intros t [Hc _]. revert Hc. apply class_avoid. reflexivity. }
+  destruct (sp_query_qf qu fr Hq35) as [Eq Ef].
+  fold (qf_part qu fr).
+  destruct ht as [h|]; cbn [is_some].
+  - (* with an authority *)
+    destruct Hfl as [-> Hfl].
+    set (lit := is_some i6 || is_some fu).
+    match goal with |- context [([47; 47] ++ ?X) ++ _] => set (A := X) end.
+    change (concat (map (fun s : text => 47 :: s) ps)) with (slashed ps).
+    assert (opt_post sc [58] ++ ([47; 47] ++ A) ++ slashed ps ++ qf_part qu fr
+            = opt_post sc [58] ++ [47; 47] ++ A ++ slashed ps ++ qf_part qu fr) as E0
+      by (rewrite <- !app_assoc; reflexivity).
+    rewrite E0. clear E0.
+    rewrite ft_scheme_opt; [|exact Hsc|].
+    2:{ intros _. exists [], ([47; 47] ++ A ++ slashed ps ++ qf_part qu fr). repeat split; reflexivity. }
+    cbv beta iota.
+    assert (opt_ok (avoid [47; 63; 35; 64]) ui) as Hui'.
+    { revert Hui. apply opt_ok_impl. intros t [Hc _]. revert Hc. apply class_avoid. reflexivity. }
+    assert (opt_ok (avoid [47; 63; 35; 64]) po) as Hpo'.
+    { revert Hpo. apply opt_ok_impl. intros t Hc. revert Hc. apply class_avoid. reflexivity. }
+    assert (avoid [47; 63; 35; 64] h) as Hh'.
+    { unfold lit. destruct (is_some i6); cbn [orb].
+      - revert Hh; apply class_avoid; reflexivity.
+      - destruct (is_some fu).
+        + revert Hh; apply class_avoid; reflexivity.
+        + destruct Hh as [Hh _]. revert Hh; apply class_avoid; reflexivity. }
+    assert (forall t, avoid [47; 63; 35; 64] t -> avoid [47; 63; 35] t) as Hsub.
+    { intros t. apply avoid_sub. intros c. cbn [mem]. intros H. rewrite !orb_true_iff in *. tauto. }
+    assert (avoid [47; 63; 35] A) as HA.
+    { unfold A. apply avoid_app; [apply avoid_opt_post; [revert Hui'; apply opt_ok_impl; exact Hsub|reflexivity]|].
+      apply avoid_app; [|apply avoid_opt_pre; [revert Hpo'; apply opt_ok_impl; exact Hsub|reflexivity]].
+      destruct lit; [|exact (Hsub _ Hh')]. apply avoid_app; [reflexivity|]. apply avoid_app; [exact (Hsub _ Hh')|reflexivity]. }
+    rewrite sp_auth_some; [|exact HA|apply slashed_stops; apply qf_stops3]. cbv beta iota.
+    rewrite span_app; [|apply avoid_slashed; [reflexivity|exact Hps2]|apply qf_stops]. cbv beta iota.
+    rewrite Eq. cbv beta iota zeta. rewrite Ef.
+    f_equal.
+    + (* the authority text *)
+      f_equal. unfold A, lit.
+      destruct i6 as [b|], fu as [f|]; cbn [is_some orb] in *; try contradiction.
+      * destruct Hfl as (-> & _). destruct ui, po; reflexivity.
+      * destruct Hfl as (-> & _). destruct ui, po; reflexivity.
+      * destruct i4; destruct ui, po; reflexivity.
+    + (* the path text *)
+      cbn [orb andb]. rewrite andb_true_r. destruct ps as [|s r]; [reflexivity|].
+      rewrite slashed_join by discriminate. reflexivity.
+  - (* without *)
+    destruct Hfl as (-> & -> & ->). destruct Hau as [-> ->]. cbn [app].
+    assert (match ps with [] :: _ => False | _ => True end) as Hne.
+    { destruct ps as [|[|c s] r]; auto. destruct Hpa as [Hpa _]. apply Hpa. reflexivity. }
+    pose proof (segs_avoid [47; 63; 35] _ eq_refl Hps) as Hps3.
+    assert (forall c s r, ps = (c :: s) :: r -> c <> 47) as Hc47.
+    { intros c s r ->. inversion Hns as [|? ? H1 _]; subst. intros ->. apply H1. left. reflexivity. }
+    assert (forall qu fr, head_is 47 (qf_part qu fr) = false) as Hqf47 by (intros [?|] [?|]; reflexivity).
+    set (P := (if ab then [47] else []) ++ join_slash ps).
+    assert (avoid [63; 35] P) as HP.
+    { unfold P. apply avoid_app; [destruct ab; reflexivity|].
+      destruct ps as [|s r]; [reflexivity|]. rewrite join_slash_cons.
+      inversion Hps2; subst. apply avoid_app; [assumption|]. apply avoid_slashed; [reflexivity|assumption]. }
+    assert (no_dslash_start (P ++ qf_part qu fr)) as Hnd.
+    { unfold no_dslash_start, P. destruct ab; cbn [app head_is tl].
+      - change (47 =? 47) with true. cbn [andb]. destruct ps as [|[|c s] r]; [apply Hqf47|contradiction|].
+        rewrite join_slash_cons. cbn [app head_is]. apply N.eqb_neq. exact (Hc47 c s r eq_refl).
+      - destruct ps as [|[|c s] r]; [|contradiction|].
+        + cbn [join_slash app]. rewrite Hqf47. reflexivity.
+        + rewrite join_slash_cons. cbn [app head_is]. pose proof (Hc47 c s r eq_refl) as Hc.
+          apply N.eqb_neq in Hc. rewrite Hc. reflexivity. }
+    rewrite ft_scheme_opt; [|exact Hsc|].
+    2:{ intros ->. unfold P. destruct ab.
+        - exists [], (([47] ++ join_slash ps) ++ qf_part qu fr). repeat split; reflexivity.
+        - cbn [app]. destruct ps as [|s r].
+          + exists [], (qf_part qu fr). split; [reflexivity|]. split; [reflexivity|apply qf_stops3].
+          + exists s, (slashed r ++ qf_part qu fr). rewrite join_slash_cons, <- app_assoc.
+            split; [reflexivity|]. split; [|apply slashed_stops; apply qf_stops3].
+            destruct Hpa as [_ Hpa]. specialize (Hpa eq_refl eq_refl).
+            inversion Hps3 as [|? ? H1 _]; subst. unfold avoid in *. rewrite forallb_forall in *.
+            intros c Hc. specialize (H1 c Hc). cbn [mem] in *.
+            destruct (c =? 58) eqn:E; [apply N.eqb_eq in E; subst; contradiction|exact H1]. }
+    cbv beta iota. rewrite sp_auth_none by exact Hnd. cbv beta iota.
+    rewrite span_app; [|exact HP|apply qf_stops]. cbv beta iota.
+    rewrite Eq. cbv beta iota zeta. rewrite Ef.
+    unfold P. rewrite andb_false_r, orb_false_r. reflexivity.
+Qed.
+
+(* the five components of a parsed object are those RFC 3986 appendix B assigns to the text (every host
+   kind: the authority text of the object has the host as it was written, in brackets for a literal) *)
+Theorem parsed_five_of_text s u : parse s = POk u -> RP.five_of_uri u = Resolve.five_of_text s.
+Proof.
+  intros H. rewrite <- (parse_unparse s u H) at 1. symmetry. apply five_unparse. exact (parse_wf s u H).
+Qed.
+
+(* the five components of the normalized object are the normal form of the five components of the text *)
+Theorem parsed_normal_five s u : parse s = POk u -> relative_ref u = false ->
+  RP.five_of_uri (normalize 63 u)
+  = Normal.guard_normal (Resolve.five_of_text s) (Normal.five_normal (Resolve.five_of_text s)).
+Proof.
+  intros H Hrel. rewrite <- (parsed_five_of_text s u H).
+  apply normalize_text_is_spec; [exact (proj1 (parsed_meets_hyps s u H))|exact Hrel].
+Qed.
+
+(* THE TEXT: uriToString of the normalized object is the specification's normal form of the text *)
+Theorem parsed_normal_text s u : parse s = POk u -> relative_ref u = false -> ip6 u = None ->
+  to_text (normalize 63 u) = Normal.normal_text s.
+Proof.
+  intros H Hrel H6. unfold Normal.normal_text. cbv zeta. rewrite <- (parsed_five_of_text s u H).
+  destruct (parsed_meets_hyps s u H) as [Hh H4].
+  exact (normalize_to_text_is_spec u Hh H4 H6 Hrel).
+Qed.
